@@ -154,3 +154,86 @@ def opcode_multiset_diff(a, b):
     gone = sorted((ca - cb).elements())
     new = sorted((cb - ca).elements())
     return "-" + ",".join(gone[:6]) + "+" + ",".join(new[:6])
+
+
+# ------------------------------------------------------------------------------------------
+# generic seeded PIPE op (shared by C01, C08, C09, C17 ...)
+
+HONEST = ["optimal", "optimal", "any_model", "non_optimal", "skewed", "nth_model", "no_model", "unsat", "timeout"]
+
+
+def peer_plan(rng, n, kinds=None):
+    plan = []
+    for _ in range(n):
+        k = rng.choice(kinds or HONEST)
+        e = {"kind": k, "seed": rng.randrange(1, 1 << 16)}
+        if k == "skewed":
+            e["mode"] = rng.choice(["random", "random", "maximise"])
+        if k == "nth_model":
+            e["n"] = rng.randrange(1, 4)
+        if k == "timeout":
+            e["rlimit"] = rng.choice([2000, 20000, 200000])
+        plan.append(e)
+    return plan
+
+
+def build_pipe_op(spec, peer_kinds=None, fmt=None, backend=None, extra_flags=(), profile=None, mix=(6, 2, 2)):
+    """Op for run `index` of `seed`: streams workload/options/peer are independent."""
+    from gsim.core.prng import stream
+    from gsim.work import blocks as B, contracts as CT, options as O
+    i = spec["index"]
+    rw = stream(spec["seed"], i, "workload")
+    ro = stream(spec["seed"], i, "options")
+    rp = stream(spec["seed"], i, "peer")
+    mode = i % sum(mix)
+    if backend is None:
+        backend = "-greedy" if mode < mix[0] else ("solver" if mode < mix[0] + mix[1] else "-ub-greedy")
+    flags, desc = O.draw(ro, backend=backend)
+    flags = list(flags) + list(extra_flags)
+    if fmt is None:
+        fmt = "bl" if i % 3 != 2 else ("asm" if (i // 3) % 2 == 0 else "single")
+    small = backend != "-greedy"
+    if fmt == "bl":
+        nb = 2 if small else 6
+        bl = []
+        for j in range(nb):
+            L = rw.choice([3, 4, 5, 6, 8, 10]) if small else None
+            bl.append(B.gen_block(rw, profile=profile, length=L, ending=(j < nb - 1) or rw.random() < 0.3, pseudo=False))
+        op = bl_op(bl, flags, style=rw.choice([0, 0, 0, 1, 3]))
+    else:
+        bk = {"length": 6} if small else {}
+        if profile:
+            bk["profile"] = profile
+        kw = {"block_kw": bk}
+        if fmt == "asm":
+            doc = CT.gen_combined(rw, ncontracts=1 if small else 2, nblocks_init=1, nblocks_run=2 if small else 4, **kw)
+            op = asm_op(doc, flags)
+        else:
+            doc = CT.gen_contract_asm(rw, nblocks_init=1, nblocks_run=2 if small else 4, **kw)
+            op = asm_op(doc, flags, single=True)
+    if backend != "-greedy":
+        op["peer_plan"] = peer_plan(rp, 12, peer_kinds)
+        op["peer_default"] = {"kind": "optimal"}
+        op["cpu_s"] = 120
+    op["desc"] = desc
+    op["fmt"] = fmt
+    return op
+
+
+def pairs_of(op, res):
+    """Aligned (path, input items, emitted items) per block, or None when no output file exists."""
+    fmt = op["fmt"]
+    if fmt == "bl":
+        r = bl_pairs(op, res)
+        if r is None:
+            return None
+        ins, outs = r
+        if len(ins) != len(outs):
+            raise ValueError("block count differs: %d vs %d" % (len(ins), len(outs)))
+        return [("#%d" % i, a, b) for i, (a, b) in enumerate(zip(ins, outs))]
+    out = res["files"].get(output_path(op))
+    if out is None:
+        return None
+    in_doc = json.loads(op["files"][op["argv"][0]])
+    out_doc = json.loads(out.decode())
+    return doc_block_pairs(in_doc, out_doc, single=(fmt == "single"))
